@@ -113,6 +113,7 @@ impl PanicInfo {
 
 thread_local! {
     static LAST_PANIC: RefCell<Option<PanicInfo>> = RefCell::new(None);
+    static GUARD_DEPTH: std::cell::Cell<u32> = std::cell::Cell::new(0);
 }
 
 pub fn install_panic_hook() {
@@ -130,7 +131,13 @@ pub fn install_panic_hook() {
             .location()
             .map(|l| (l.file().to_string(), l.line()))
             .unwrap_or_else(|| ("<unknown>".into(), 0));
-        if verbose || file.contains("/verif/sim/src/core.rs") {
+        if GUARD_DEPTH.with(|d| d.get()) == 0 {
+            // a panic outside any guarded call into the code under test is a harness bug, never a finding
+            default(info);
+            eprintln!("HARNESS-ERROR: harness panicked outside a guarded call: {} at {}:{}", msg, file, line);
+            std::process::exit(2);
+        }
+        if verbose {
             default(info);
         }
         LAST_PANIC.with(|p| *p.borrow_mut() = Some(PanicInfo { msg, file, line }));
@@ -140,7 +147,10 @@ pub fn install_panic_hook() {
 /// Runs `f`, converting a panic into an observation.
 pub fn guard<T>(f: impl FnOnce() -> T) -> Result<T, PanicInfo> {
     LAST_PANIC.with(|p| *p.borrow_mut() = None);
-    match panic::catch_unwind(AssertUnwindSafe(f)) {
+    GUARD_DEPTH.with(|d| d.set(d.get() + 1));
+    let result = panic::catch_unwind(AssertUnwindSafe(f));
+    GUARD_DEPTH.with(|d| d.set(d.get() - 1));
+    match result {
         Ok(v) => Ok(v),
         Err(_) => {
             let p = LAST_PANIC.with(|p| p.borrow_mut().take()).unwrap_or(PanicInfo {
